@@ -237,7 +237,7 @@ func mutate(rng *fw.Rng, root any) (any, string) {
 			nv := fw.Pick(rng, []float64{0, -1, -5, 0.5, 256.5, 1e308, 5e-324, 18446744073709551616, 9223372036854775808, 4294967296, -0.0, 1e19, 2, 3})
 			return setAt(root, p, nv, false), fmt.Sprintf("%s := %v", ps, nv)
 		case string:
-			nv := fw.Pick(rng, []string{"", "a", "3.5", " 5", "05", "-1", "1e3", "99999999999999999999", "0x10", "٣", "bottomLeft", "middle", "http://x", "not a uri", "urn:ogc:def:crs:EPSG::4326"})
+			nv := fw.Pick(rng, []string{"", "a", "3.5", " 5", "05", "-1", "1e3", "99999999999999999999", "9223372036854775807", "-9223372036854775808", "-9223372036854775807", "4611686018427387904", "-4611686018427387905", "-2", "2147483648", "0x10", "٣", "bottomLeft", "middle", "http://x", "not a uri", "urn:ogc:def:crs:EPSG::4326"})
 			return setAt(root, p, nv, false), fmt.Sprintf("%s := %q", ps, nv)
 		}
 		fallthrough
@@ -412,6 +412,21 @@ func judgeDoc(c *fw.Ctx, dc *docCase) {
 		c.Rec.Violation("value-changes-across-decode-encode", "", fmt.Sprintf("document (%s; %s): decode -> encode -> decode yields a different value: %s", dc.Base, strings.Join(dc.Muts, "; "), firstDiff(v1, v2)), cj, det)
 	} else if !bytes.Equal(e1, e2) {
 		c.Rec.Violation("encoding-not-stable", "", fmt.Sprintf("document (%s; %s): second encoding differs from the first", dc.Base, strings.Join(dc.Muts, "; ")), cj, det)
+	} else {
+		// stable also means: the same value encodes to the same bytes every time (member order must not follow map iteration)
+		for k := 0; k < 3; k++ {
+			var ek []byte
+			func() {
+				defer func() { pan = recover() }()
+				ek, err = json.Marshal(&v1)
+			}()
+			if pan != nil || err != nil || !bytes.Equal(e1, ek) {
+				det["repeated_encoding"] = string(ek)
+				c.Rec.Violation("encoding-not-stable", "", fmt.Sprintf("document (%s; %s): encoding the same decoded value again gives different bytes (panic=%v err=%v)", dc.Base, strings.Join(dc.Muts, "; "), pan, err), cj, det)
+				break
+			}
+		}
+		c.Rec.Count("repeated_encodings_of_one_value_compared")
 	}
 	// history: the encoding of an already decoded value must not depend on what else is decoded meanwhile.
 	// Decode siblings of this document whose crs (and bounding box crs) is written in the other URI form
